@@ -51,7 +51,68 @@ def judge(prog: Any, ref: Any, run: dict[str, Any], info: dict[str, Any]) -> lis
     return one_violation("C03", [(v["cls"], v["msg"], v["sig"].split(":", 1)[1]) for v in vs[:3]], run["h"])
 
 
-CHECK = DCheck("C03", PROFILE, judge, setup=setup, need_ref=False,
+def make_program(ch: Choices, tier: str) -> Any:
+    """Mostly the generic family; 15% a focused shape in which a StartStage for a stage inside a jump's re-armed set is
+    in flight at about the time the jump commits (T -> M.. -> X ; T -> S which jumps back to T ; Z waits for X and S):
+    with two workers the StartStage handler has read "upstream done" when the jump re-arms upstream *and* X's own row."""
+    from sim.programs import Program, gen_program
+
+    if ch.flip("c03.quorum", 0.15):
+        # quorum / first-of join over 3-4 branches of different length, some of which halt: the join must count
+        # continuable upstreams only, at whatever moment a StartStage for it is handled
+        nb = 3 + ch.pick("c03.q.nb", 2)
+        join = ch.choice("c03.q.join", ["N_OF_M", "N_OF_M", "DISCRIMINATOR"])
+        stages_q: list[dict[str, Any]] = [{"ref": "R", "deps": [], "ctx": {}, "tasks": [{"b": "ok", "out": {}}]}]
+        brs = []
+        for i in range(nb):
+            r = f"B{i}"
+            brs.append(r)
+            kind = ch.choice("c03.q.kind", ["ok", "ok", "fail_terminal", "poller", "fail_continue"])
+            t: dict[str, Any] = {"b": kind, "out": {}} if kind != "poller" else {"b": "poller", "n": 1 + ch.pick("c03.q.polls", 3), "out": {}}
+            if kind == "fail_terminal":
+                t = {"b": "fail_terminal"}
+            pre = [{"b": "ok", "out": {}} for _ in range(ch.pick("c03.q.pre", 3))]
+            stages_q.append({"ref": r, "deps": ["R"], "ctx": {}, "tasks": pre + [t]})
+        j: dict[str, Any] = {"ref": "J", "deps": brs, "ctx": {}, "join": join, "tasks": [{"b": "ok", "out": {}}]}
+        if join == "N_OF_M":
+            j["thr"] = 2 + ch.pick("c03.q.thr", nb - 2)
+        stages_q.append(j)
+        stages_q.append({"ref": "Z", "deps": ["J"], "ctx": {}, "tasks": [{"b": "ok", "out": {}}]})
+        return Program({"name": "c03-quorum", "wf_ctx": {}, "stages": stages_q})
+    if ch.flip("c03.loopfanin", 0.1):
+        # the jumping stage is itself a fan-in inside its loop: T -> {A, B} -> S, S jumps back to T; in the next iteration
+        # the first branch to finish sends StartStage(S) while the other still runs
+        okt = lambda: {"b": "ok", "out": {}}  # noqa: E731
+        stages_l: list[dict[str, Any]] = [{"ref": "T", "deps": [], "ctx": {}, "tasks": [okt()]}]
+        for r in ("A", "B"):
+            ts = [okt() for _ in range(1 + ch.pick("c03.lf.nt", 3))]
+            if ch.flip("c03.lf.poll", 0.3):
+                ts[0] = {"b": "poller", "n": 1 + ch.pick("c03.lf.polls", 2), "out": {}}
+            stages_l.append({"ref": r, "deps": ["T"], "ctx": {}, "tasks": ts})
+        stages_l.append({"ref": "S", "deps": ["A", "B"], "ctx": {}, "join": ch.choice("c03.lf.join", ["AND", "AND", "N_OF_M"]),
+                         "tasks": [{"b": "jumper", "target": "T", "n": 1 + ch.pick("c03.lf.n", 2), "out": {}}]})
+        if stages_l[-1]["join"] == "N_OF_M":
+            stages_l[-1]["thr"] = 2
+        stages_l.append({"ref": "Z", "deps": ["S"], "ctx": {}, "tasks": [okt()]})
+        return Program({"name": "c03-loopfanin", "wf_ctx": {}, "stages": stages_l})
+    if not ch.flip("c03.jumprace", 0.2):
+        return gen_program(ch, PROFILE)
+    ok = lambda **kw: {"b": "ok", "out": kw}  # noqa: E731
+    nm = 1 + ch.pick("c03.jr.m", 2)
+    stages: list[dict[str, Any]] = [{"ref": "T", "deps": [], "ctx": {}, "tasks": [ok(k0="s")]}]
+    prev = "T"
+    for i in range(nm):
+        r = f"M{i}"
+        stages.append({"ref": r, "deps": [prev], "ctx": {}, "tasks": [ok() for _ in range(1 + ch.pick("c03.jr.mt", 2))]})
+        prev = r
+    stages.append({"ref": "X", "deps": [prev], "ctx": {}, "tasks": [ok(k1="s")]})
+    pre = [ok() for _ in range(ch.pick("c03.jr.st", 4))]
+    stages.append({"ref": "S", "deps": ["T"], "ctx": {}, "tasks": pre + [{"b": "jumper", "target": "T", "n": 1 + ch.pick("c03.jr.n", 2), "out": {}}]})
+    stages.append({"ref": "Z", "deps": ["X", "S"], "ctx": {}, "tasks": [ok()]})
+    return Program({"name": "c03-jumprace", "wf_ctx": {}, "stages": stages, "force_w": True})
+
+
+CHECK = DCheck("C03", PROFILE, judge, make_program=make_program, setup=setup, need_ref=False,
                nontrivial=lambda run, info: (run["faults"].get("reorder", 0) + run["faults"].get("injected_startstage", 0)) > 0)
 CHECK.w_share = 0.25
 run_one = CHECK.run_one
